@@ -124,7 +124,11 @@ Kleene(t, env, av) ==
          ELSE IF c.v THEN Kleene(t.kids[2], env, av) ELSE Kleene(t.kids[3], env, av)
     [] OTHER ->
          LET n == Len(t.kids)
-             vs == [i \in 1..n |-> Kleene(t.kids[i], env, av)]
+             \* (built with Append: a [i \in 1..n |-> ...] function is re-evaluated by TLC at
+             \* every application, which makes the recursion exponential in the depth)
+             RECURSIVE col(_, _)
+             col(i, acc) == IF i > n THEN acc ELSE col(i + 1, Append(acc, Kleene(t.kids[i], env, av)))
+             vs == col(1, <<>>)
          IN IF \E i \in 1..n : ~Ok(vs[i]) THEN E("some")
             ELSE IF IsAnd(t) /\ Has(vs, B(FALSE)) THEN B(FALSE)
             ELSE IF IsOr(t) /\ Has(vs, B(TRUE)) THEN B(TRUE)
@@ -134,11 +138,30 @@ Kleene(t, env, av) ==
 
 \* No sub-expression fails under any reading: strict evaluation of every
 \* sub-expression (both branches of every `if`, every and/or operand) succeeds.
-RECURSIVE NoSubFails(_, _)
-NoSubFails(t, env) ==
-  /\ \A i \in 1..Len(t.kids) : NoSubFails(t.kids[i], env)
-  /\ LET r == DenAll(t, env) IN Ok(r)
-  /\ (t.k = "if" => Ok(DenAll(t.kids[2], env)) /\ Ok(DenAll(t.kids[3], env)))
+RECURSIVE StrictAll(_, _)
+StrictAll(t, env) ==   \* one pass: every operand and BOTH branches of every `if` are evaluated
+  CASE t.k = "c" -> t.v
+    [] t.k = "v" -> Lookup(env, t.v)
+    [] t.k = "if" ->
+         LET c == StrictAll(t.kids[1], env)
+             a == StrictAll(t.kids[2], env)
+             b == StrictAll(t.kids[3], env)
+         IN IF ~Ok(c) THEN c ELSE IF ~IsBool(c) THEN E("cond")
+            ELSE IF ~Ok(a) THEN a ELSE IF ~Ok(b) THEN b
+            ELSE IF c.v THEN a ELSE b
+    [] OTHER ->
+         LET n == Len(t.kids)
+             RECURSIVE go(_, _)
+             go(i, acc) ==
+               IF i > n THEN (IF IsBoolOp(t)
+                              THEN (IF n < 2 THEN E("count:boolop")
+                                    ELSE IF \E j \in 1..n : ~IsBool(acc[j]) THEN E("type:boolop")
+                                    ELSE Apply(t.v, acc))
+                              ELSE ApplyAny(t.v, acc))
+               ELSE LET r == StrictAll(t.kids[i], env) IN
+                    IF ~Ok(r) THEN r ELSE go(i + 1, Append(acc, r))
+         IN go(1, <<>>)
+NoSubFails(t, env) == Ok(StrictAll(t, env))
 
 (***************************************************************************)
 (* Effects.  An effect log is a sequence of                                *)
